@@ -654,7 +654,7 @@ def stream_for0(pid, tier, seed):
                  # a pull in flight while another thread skips and then pulls again
                  [["bufnew 2", "bufnext all"], ["skip", "next", "hasmore"]], [["chunk 2 all"], ["skip", "next", "hasmore"]],
                  [["next"], ["skip", "chunk 2 all", "hasmore"]]]
-        cases += exhaustive("C06-x2", small_bases(rng, progs, ["slice", "vec", "range", "iter"]), 2, 9 if not big else 12)
+        cases += exhaustive("C06-x2", small_bases(rng, progs, ["slice", "vec", "range", "iter", "array"]), 2, 9 if not big else 12)
         # very long known-size sources: one or more skips, then pulls and queries
         j = 0
         for (a, b) in [(0, MAXW), (0, MAXW - 1), (5, (1 << 63) + 9), (1, MAXW), (0, (1 << 63) + 1)]:
